@@ -422,6 +422,9 @@ def _sc_c17(env, group, cfg, ty, vals):
         # wrong element type: refused
         expect_refused(env, lambda: call.call("first_f64", ret=0.0, x=np.array([1, 2, 3], dtype="int32"), k=0), "C17 a NumPy array of another element type is refused")
         expect_refused(env, lambda: call.call("first_f64", ret=0.0, x=np.array([1.0, 2.0], dtype="float32"), k=0), "C17 a NumPy float32 array is refused where double* is declared")
+        # the same number type stored in the other byte order is another element type for the compiled function
+        expect_refused(env, lambda: call.call("first_f64", ret=0.0, x=np.array([1.0, 2.0]).astype(np.dtype("float64").newbyteorder("S")), k=0), "C17 a NumPy float64 array of non-native byte order is refused where double* is declared")
+        expect_refused(env, lambda: call.call("elem_i32", ret=0, x=np.array([1, 2, 3], dtype=np.dtype("int32").newbyteorder("S")), base=base()), "C17 a NumPy int32 array of non-native byte order is refused where int32_t* is declared")
         expect_refused(env, lambda: call.call("elem_f64", ret=0, x=objs["KI"], base=base()), "C17 an xobject Int32 array is refused where double* is declared")
         expect_refused(env, lambda: call.call("elem_i32", ret=0, x=objs["KA"], base=base()), "C17 an xobject Float64 array is refused where int32_t* is declared")
     elif group == "scalars":
